@@ -96,11 +96,12 @@ def _expire_spec(ex, st, post, result):
     import z3
     from pyvc.values import eq
     self_ = post.env['self']
-    h = st.heap[self_.ref]
+    # (the values the manager had when the call was made: the function must not change them - see the frame obligation)
+    h = (post.old.heap if getattr(post, 'old', None) is not None else st.heap)[self_.ref]
     rb, fixed = h['_refresh_before'], h['_expire_timestamp']
     calls = T.evs(st, 'before_timestamp_from_options')
     truthy = ex.truth(st, rb)
-    explicit = z3.Not(fixed.isnone)
+    explicit = z3.Not(fixed.isnone) if hasattr(fixed, 'isnone') else z3.BoolVal(type(fixed).__name__ != 'VNone')
     if calls:
         ev = calls[-1][1]
         yield ('refresh_rule_of_the_cache_is_evaluated_on_every_call',
